@@ -143,6 +143,15 @@ type DynTime struct {
 	lastHeight   uint32
 	haveLast     bool
 	notifyDepth  map[int]*notifyCtx
+	wait         map[int]*waitState
+}
+
+type waitState struct {
+	h       uint32
+	fired   bool
+	firedAt int64
+	ta      int64
+	haveTa  bool
 }
 
 type notifyCtx struct {
@@ -152,15 +161,55 @@ type notifyCtx struct {
 	hadReq     bool
 }
 
-func NewDynTime() *DynTime { return &DynTime{notifyDepth: map[int]*notifyCtx{}} }
+func NewDynTime() *DynTime {
+	return &DynTime{notifyDepth: map[int]*notifyCtx{}, wait: map[int]*waitState{}}
+}
 
 func (m *DynTime) Event(c *vnet.Cluster, e *vnet.Event) {
 	if e.Node < 0 {
+		if e.Kind == vnet.KNet && e.Tx != nil && c.Cfg.MaxTPB > 0 {
+			// a transaction became available: note it for every primary that is waiting for one
+			for _, n := range c.Nodes {
+				if n.Role != vnet.Honest || !n.Live() || n.D.Validators == nil {
+					continue
+				}
+				d := n.D
+				if _, has := n.Pool[e.Tx.Hash()]; !has || !d.IsPrimary() || d.Context.WatchOnly() || d.ViewNumber != 0 || d.RequestSentOrReceived() || d.BlockSent() {
+					continue
+				}
+				w := m.wait[n.ID]
+				if w == nil || w.h != d.BlockIndex {
+					w = &waitState{h: d.BlockIndex}
+					m.wait[n.ID] = w
+				}
+				if !w.haveTa {
+					w.ta, w.haveTa = e.Clock, true
+				}
+			}
+		}
 		return
 	}
 	n := c.Nodes[e.Node]
 	cfg := &c.Cfg
 	tol := 2*int64(cfg.LatMax) + int64(cfg.K.SlowExtra)
+	if e.Kind == vnet.KAPICall && e.API == "OnTimeout" && n.D != nil && n.D.Validators != nil && e.TH == n.D.BlockIndex && e.TV == 0 && n.D.ViewNumber == 0 && n.D.IsPrimary() {
+		w := m.wait[n.ID]
+		if w == nil || w.h != n.D.BlockIndex {
+			w = &waitState{h: n.D.BlockIndex}
+			m.wait[n.ID] = w
+		}
+		if !w.fired {
+			w.fired, w.firedAt = true, e.Clock
+		}
+	}
+	if e.Kind == vnet.KSend && e.P.T == dbft.PrepareRequestType && e.P.View == 0 && cfg.MaxTPB > 0 {
+		if w := m.wait[n.ID]; w != nil && w.h == e.P.Hgt && w.haveTa && w.fired && w.firedAt <= w.ta {
+			m.inc("waiting-primaries-with-transaction-checked")
+			if gap := e.Clock - w.ta; gap > tol {
+				m.fail(c, "proposal-not-prompt", "primary n%d of height %d was waiting (its block-time timer had fired) when a transaction became available, but proposed only %s later (tolerance %s)", n.ID, e.P.Hgt, time.Duration(gap), time.Duration(tol))
+			}
+		}
+	}
 	switch e.Kind {
 	case vnet.KSubscribe:
 		if cfg.MaxTPB == 0 {
